@@ -1,4 +1,5 @@
 from typing import Coroutine, List, TypeVar, Any, Optional, Tuple
+import sys
 
 from .._core.loop import Interrupt as CoreInterrupt
 from .._core.handler import __USIM_STATE__
@@ -91,7 +92,7 @@ class Scope:
             on_done(scope)  # pass scope around to await its end
     """
     __slots__ = '_children', '_body_done', '_activity', '_volatile_children', \
-                '_child_failures', '_cancel_self', '_interruptable'
+                '_child_failures', '_cancel_self', '_interruptable', '_handled_on_entry'
 
     #: Exceptions which are *not* re-raised from concurrent tasks
     SUPPRESS_CONCURRENT = (
@@ -115,6 +116,8 @@ class Scope:
         self._interruptable = True
         self._activity = None  # type: Optional[Coroutine]
         self._cancel_self = CancelScope(self, 'Scope._cancel_self')
+        # exception being handled where the scope is used, e.g. in a ``finally:``
+        self._handled_on_entry = None  # type: Optional[BaseException]
 
     def __await__(self):
         yield from self._body_done.__await__()
@@ -236,6 +239,7 @@ class Scope:
         if self._activity is not None:
             raise RuntimeError('%r is not re-entrant' % self.__class__.__name__)
         self._activity = __USIM_STATE__.loop.activity
+        self._handled_on_entry = sys.exc_info()[1]
         return self
 
     async def __aexit__(self, exc_type, exc_val, exc_tb) -> bool:
@@ -304,14 +308,30 @@ class Scope:
             # unwinding the body, e.g. while suspended in the ``__aexit__`` of an
             # inner block. If that one is still valid (not revoked), it is not ours
             # to handle and must not get lost.
+            # An interrupt that was being handled already where the scope was entered
+            # (``finally: async with until(...):``) is merely the context of ours.
             replaced = getattr(exc_val, '__context__', None)
+            # interrupts of blocks that have ended meanwhile are revoked: look behind them
+            while (
+                isinstance(replaced, CoreInterrupt)
+                and replaced is not self._handled_on_entry
+                and (not replaced or self._is_suppressed(replaced))
+            ):
+                replaced = replaced.__context__
             if (
                 isinstance(replaced, CoreInterrupt)
-                and replaced
-                and not self._is_suppressed(replaced)
+                and replaced is not self._handled_on_entry
             ):
                 privileged, _ = self._collect_exceptions()
-                raise privileged or replaced
+                if privileged is not None:
+                    raise privileged
+                # raising makes the interrupt handled right now the context of
+                # ``replaced``: keep what that one has replaced itself before
+                context = replaced.__context__
+                try:
+                    raise replaced
+                finally:
+                    replaced.__context__ = context
             # we do not have an exception to propagate, take whatever we can get
             privileged, concurrent = self._collect_exceptions()
             if privileged is not None or concurrent is not None:
